@@ -12,11 +12,12 @@ open Unsync
 /-- C10 on the single-threaded cache: for every configuration (any capacity incl. 0 and
 none, any weigher incl. weights 0 and above capacity, any ttl/tti, any hash function),
 and every history, every snapshot taken after any operation shows
-`entry_count = number of resident entries` and `weighted_size = Σ their weights`.
+`entry_count = number of resident entries` and `weighted_size = Σ their weights`, the
+weights being both the stored ones and the weigher applied to the resident key and value.
 `SmallSketch` is the documented limit (popularity-sketch table below 2^28 slots). -/
 theorem C10_unsync {P : Sketch → Prop} (L : SketchLaws P) (p : Params) (hq : NoQuirks p)
     (hsm : SmallSketch p) (h : List Op) :
-    Spec.oracleC10 .unsync (Unsync.trace p h) = true := by
+    Spec.oracleC10 .unsync p.weigh (Unsync.trace p h) = true := by
   unfold Spec.oracleC10 Unsync.trace
   apply run_all L hq hsm _ _ h {} (init_inv L p)
   intro s op hi
@@ -26,7 +27,7 @@ theorem C10_unsync {P : Sketch → Prop} (L : SketchLaws P) (p : Params) (hq : N
 
 /-- Non-vacuity: a concrete history with eviction, rejection, invalidation, expiry and a
 weight-changing update; the oracle is evaluated on its trace. -/
-example : Spec.oracleC10 .unsync (Unsync.trace
+example : Spec.oracleC10 .unsync (fun _ v => v % 3) (Unsync.trace
     { cap := some 3, ttl := some 5, hasWeigher := true, w := fun _ v => v % 3 }
     [.ins 1 1, .snap, .ins 2 2, .snap, .get 1, .ins 3 5, .snap, .ins 1 2, .snap, .inv 2, .snap,
      .adv 5, .get 1, .snap, .ins 4 1, .invIf (.kmod 2 0), .snap, .invAll, .snap]) = true := by
@@ -35,22 +36,22 @@ example : Spec.oracleC10 .unsync (Unsync.trace
 /-- On the unrepaired tree the property fails (defect D1): after `invalidate` the counter
 stays one too high. Witness evaluated on the model with the defect switch on. -/
 theorem C10_unsync_counterexample_D1 :
-    Spec.oracleC10 .unsync (Unsync.trace { q := { d1 := true } }
+    Spec.oracleC10 .unsync (fun _ _ => 1) (Unsync.trace { q := { d1 := true } }
       [.ins 1 1, .ins 2 2, .inv 1, .snap]) = false := by
   decide
 
 theorem C10_unsync_counterexample_D2 :
-    Spec.oracleC10 .unsync (Unsync.trace { q := { d2 := true } }
+    Spec.oracleC10 .unsync (fun _ _ => 1) (Unsync.trace { q := { d2 := true } }
       [.ins 1 1, .ins 2 2, .invAll, .snap]) = false := by
   decide
 
 theorem C10_unsync_counterexample_D3 :
-    Spec.oracleC10 .unsync (Unsync.trace { q := { d3 := true } }
+    Spec.oracleC10 .unsync (fun _ _ => 1) (Unsync.trace { q := { d3 := true } }
       [.ins 1 1, .ins 2 2, .invIf .all, .snap]) = false := by
   decide
 
 theorem C10_unsync_counterexample_D4 :
-    Spec.oracleC10 .unsync (Unsync.trace { ttl := some 5, q := { d4 := true } }
+    Spec.oracleC10 .unsync (fun _ _ => 1) (Unsync.trace { ttl := some 5, q := { d4 := true } }
       [.ins 1 1, .adv 5, .get 2, .snap]) = false := by
   decide
 
